@@ -4,9 +4,11 @@ pub mod c06_08_16;
 pub mod c14_15;
 pub mod c05;
 pub mod c10_11;
+pub mod c17_19_20;
 
 use crate::alpha::*;
 use crate::report::*;
+use crate::util::J;
 use crate::run_e1;
 
 const E1_RULE: &str = "every non-empty subset (size <= K) of each lattice / generic-pool alphabet, for every dimensionality, boundary kind and box of the menu, built by the real API; distinct = distinct combinatorial shape (per cell: set of non-negligible oracle faces and vertex count); non-trivial = at least one cell of positive measure";
@@ -99,6 +101,30 @@ pub fn run(prop: &str, tier: &str) -> i32 {
         "C11" => {
             c10_11::run_c11(&mut run);
         }
+        "C17" => {
+            run.rule = "visit sequences through the hook wrapper for every query generator of: all subsets of the 1D lattice, all subsets of a 3x3 (quick) / 4x4 (thorough) 2D lattice (sizes > 6 force r-tree inner nodes), 3D lattice subsets up to K, generic pool, perfect 4^3 (5^3) lattices with <= 1 generator removed (many equidistant candidates); reflective and periodic; box menu; oracle = brute force (first item, completeness, uniqueness, shift lattice, order; strict order where the arithmetic is exact)".to_string();
+            for (desc, states) in c17_19_20::c17_families(run.thorough()) {
+                run.family(desc, states.len() as u64);
+                run.explore(&states, c17_19_20::eval_c17, |s| s.to_json());
+            }
+        }
+        "C19" => {
+            run.rule = "plane helpers: all triples of non-zero integer normals in {-2..2}^3 with det != 0 (normalised and not) x point menus; projections for every (normal, plane point, query point) x 3 scales x 3 normal lengths; line projections for every normal pair; signed measures: all 4-tuples of {0,1,2}^3 x 3 scales and all vertex swaps; spheres: all affinely independent 2-,3-,4-tuples of {0,1,2}^3 x scales/offsets; extend/contains over a sphere x point menu x 3 scales; oracle = defining equations in exact integer arithmetic".to_string();
+            let th = run.thorough();
+            let mut items: Vec<(String, usize, bool)> = vec![];
+            for i in 0..124 {
+                items.push(("planes".to_string(), i, th));
+            }
+            for i in 0..27 {
+                items.push(("measures".to_string(), i, th));
+                items.push(("spheres".to_string(), i, th));
+            }
+            run.family("work items: 124 first normals, 27 first vertices (measures), 27 first vertices (spheres)".to_string(), items.len() as u64);
+            run.explore(&items, c17_19_20::eval_c19, |i| J::s(format!("{} #{}", i.0, i.1)));
+        }
+        "C20" => {
+            c17_19_20::run_c20(&mut run);
+        }
         "C14" => {
             run.rule = format!("{}; x all 2^n masks (n <= 3) x {{without faces, with faces (3D)}}; recording integrals implemented by this downstream crate (monomials of degree <= 2, face triangles)", E1_RULE);
             run_e1(&mut run, &[1, 2, 3], &[false, true], 99, c14_15::eval_c14);
@@ -141,6 +167,39 @@ pub fn replay(path: &str) -> i32 {
         eprintln!("cannot parse grid-map replay {}", path);
         return 2;
     }
+    if check == "c19" {
+        println!("C19 cases are named by their arguments (see 'case' in the replay file); re-running the family:");
+        let mut bad = 0;
+        for i in 0..124 {
+            bad += c17_19_20::eval_c19(&("planes".to_string(), i, true)).issues.len();
+        }
+        for i in 0..27 {
+            bad += c17_19_20::eval_c19(&("measures".to_string(), i, true)).issues.len();
+            bad += c17_19_20::eval_c19(&("spheres".to_string(), i, true)).issues.len();
+        }
+        println!("{} issues", bad);
+        return if bad > 0 { 1 } else { 0 };
+    }
+    if check == "c20-knn" || check == "c20-spheres" {
+        let pts: Vec<glam::DVec3> = text.lines().filter_map(|l| l.strip_prefix("gen=")).filter_map(crate::util::parse_vec_hex).collect();
+        let e = if check == "c20-knn" {
+            let a = get("anchor").and_then(|v| crate::util::parse_vec_hex(&v));
+            let w = get("width").and_then(|v| crate::util::parse_vec_hex(&v));
+            match (a, w) {
+                (Some(a), Some(w)) => c17_19_20::eval_c20_knn(&(a, w, pts, "replay".to_string())),
+                _ => {
+                    eprintln!("cannot parse {}", path);
+                    return 2;
+                }
+            }
+        } else {
+            c17_19_20::eval_c20_spheres(&(pts, "replay".to_string()))
+        };
+        for i in &e.issues {
+            println!("ISSUE clause={} case={}\n   {}", i.clause, i.case, i.detail);
+        }
+        return if e.issues.is_empty() { 0 } else { 1 };
+    }
     if check == "c11" {
         println!("C11 replays are comparisons between builds: run ./check C11 quick");
         return 2;
@@ -168,6 +227,7 @@ pub fn replay(path: &str) -> i32 {
             }
         }
         "c05" => c05::eval_c05(&st),
+        "c17" => c17_19_20::eval_c17(&st),
         "c10-duals" => c10_11::eval_dual_orientation(&st),
         "c14" => c14_15::eval_c14(&st),
         "c15" => c14_15::eval_c15(&st),
